@@ -24,6 +24,83 @@ namespace
     static constexpr bool cond_scaled = true;
     static constexpr double poly_tol = 1e-8;
     template<typename Shape_> static Index ndofs(const Counts& n) { return 6 * n.n[0] + n.n[1]; }
+
+    // Independent probe for the known finding "Math::invert_matrix pivots on diagonal entries only": the harness builds the
+    // 21x21 Argyris nodal matrix of a cell from the generator's coordinates (monomials about the barycentre x {value, dx, dy,
+    // dxx, dyy, dxy at the vertices, normal derivative at the edge midpoints}; edge orientation only flips a column sign and
+    // is irrelevant here), runs a diagonal-pivot Gauss-Jordan elimination on it in long double and records the element growth
+    // factor max|a^(k)| / max|a^(0)|.  A large growth means that diagonal pivoting is unstable for that cell.
+    static long double diag_pivot_growth(const long double (*P)[2])
+    {
+      typedef long double LD;
+      LD bc[2] = {(P[0][0] + P[1][0] + P[2][0]) / 3, (P[0][1] + P[1][1] + P[2][1]) / 3};
+      LD a[21][21]; for(auto& r : a) for(auto& x : r) x = 0;
+      LD ev[3][2] = {{0, 0}, {0, 0}, {0, 0}};
+      auto powers = [](LD x, LD* v) { v[0] = 1; for(int l = 0; l < 5; ++l) v[l + 1] = v[l] * x; };
+      for(int vi = 0; vi < 3; ++vi)
+      {
+        LD p[2] = {P[vi][0] - bc[0], P[vi][1] - bc[1]};
+        for(int d = 0; d < 2; ++d) { ev[(vi + 1) % 3][d] += p[d]; ev[(vi + 2) % 3][d] -= p[d]; }
+        LD vx[6], vy[6]; powers(p[0], vx); powers(p[1], vy);
+        int k = 0;
+        for(int i = 0; i < 6; ++i) for(int j = 0; i + j < 6; ++j, ++k)
+        {
+          a[k][6 * vi + 0] = vx[i] * vy[j];
+          if(i > 0) a[k][6 * vi + 1] = LD(i) * vx[i - 1] * vy[j];
+          if(j > 0) a[k][6 * vi + 2] = LD(j) * vy[j - 1] * vx[i];
+          if(i > 1) a[k][6 * vi + 3] = LD(i) * LD(i - 1) * vx[i - 2] * vy[j];
+          if(j > 1) a[k][6 * vi + 4] = LD(j) * LD(j - 1) * vy[j - 2] * vx[i];
+          if(i * j > 0) a[k][6 * vi + 5] = LD(i) * vx[i - 1] * LD(j) * vy[j - 1];
+        }
+      }
+      for(int ei = 0; ei < 3; ++ei)
+      {
+        // edge midpoint: edge ei is opposite to vertex ei
+        LD m[2] = {0, 0}; for(int vi = 0; vi < 3; ++vi) if(vi != ei) for(int d = 0; d < 2; ++d) m[d] += (P[vi][d] - bc[d]) / 2;
+        const LD dn = std::sqrt(ev[ei][0] * ev[ei][0] + ev[ei][1] * ev[ei][1]);
+        const LD nx = ev[ei][1] / dn, ny = -ev[ei][0] / dn;
+        LD vx[6], vy[6]; powers(m[0], vx); powers(m[1], vy);
+        int k = 0;
+        for(int i = 0; i < 6; ++i) for(int j = 0; i + j < 6; ++j, ++k)
+        {
+          if(i > 0) a[k][18 + ei] += LD(i) * nx * vx[i - 1] * vy[j];
+          if(j > 0) a[k][18 + ei] += LD(j) * ny * vy[j - 1] * vx[i];
+        }
+      }
+      LD a0 = 0; for(auto& r : a) for(auto& x : r) a0 = std::max(a0, std::fabs(x));
+      // the elimination of Math::invert_matrix (pivot candidates = diagonal entries of the not yet eliminated indices)
+      int p[21]; for(int i = 0; i < 21; ++i) p[i] = i;
+      LD amax = a0;
+      for(int k = 0; k < 21; ++k)
+      {
+        int best = k; LD pv = std::fabs(a[p[k]][p[k]]);
+        for(int j = k + 1; j < 21; ++j) if(std::fabs(a[p[j]][p[j]]) > pv) { pv = std::fabs(a[p[j]][p[j]]); best = j; }
+        std::swap(p[k], p[best]);
+        const int q = p[k];
+        if(pv == 0) return 1e300L;
+        const LD inv = 1 / a[q][q]; a[q][q] = 1;
+        for(int j = 0; j < 21; ++j) a[q][j] *= inv;
+        for(int i = 0; i < 21; ++i)
+        {
+          if(i == q) continue;
+          const LD f = a[i][q]; a[i][q] = 0;
+          for(int j = 0; j < 21; ++j) a[i][j] -= a[q][j] * f;
+        }
+        for(auto& r : a) for(auto& x : r) amax = std::max(amax, std::fabs(x));
+      }
+      return amax / a0;
+    }
+    template<typename Spec_> static void extra_tags(vh::Ctx& c, const Spec_& spec)
+    {
+      long double g = 0;
+      for(Index k = 0; k < spec.num_cells(); ++k)
+      {
+        long double P[3][2]; for(int v = 0; v < 3; ++v) for(int d = 0; d < 2; ++d) P[v][d] = spec.verts[spec.cells[k][std::size_t(v)]][std::size_t(d)];
+        g = std::max(g, diag_pivot_growth(P));
+      }
+      int e = g > 0 ? int(std::floor(std::log10(double(std::min(g, 1e30L))))) : 0;
+      c.tag("diagpivot_growth:1e" + std::to_string(std::max(0, e)));
+    }
   };
   struct DBFS : DescBase
   {
